@@ -3,7 +3,8 @@
 (* (TLC integers are 32 bit).  <<>> is zero; values are kept normalised (no   *)
 (* leading zero limb).  Every long iteration is a FoldLeft (Java-overridden,   *)
 (* iterative): no deep recursion.  Variable-free library module.               *)
-EXTENDS Naturals, Integers, Sequences, SequencesExt, FiniteSets, TLC
+EXTENDS Naturals, Integers, Sequences, FiniteSets, TLC
+LOCAL INSTANCE SequencesExt          \* FoldLeft only; not re-exported (its Min/Max would clash with Str)
 
 BnB == 32768
 BnIdx(n) == [bn_i \in 1..n |-> bn_i]
